@@ -45,6 +45,25 @@ Theorem C14_advance_past_end :
     end.
 Proof. exact wb_advance_past_end. Qed.
 
+(* T1e: the provided Buf methods a transport may call instead.  `impl Buf for WriteBuf` defines exactly remaining, chunk
+   and advance (pinned by the translator: any further method is AnchorLost), so chunks_vectored and copy_to_bytes are the
+   defaults of the bytes crate, modelled on top of the three: a vectored reader is shown one non-empty slice, a prefix of
+   the bytes; copy_to_bytes(k) hands out exactly the next k bytes *)
+Theorem C14_chunks_vectored_default :
+  forall w, wb_inv w ->
+    exists sl, wb_chunks_vectored w = Ok sl /\
+      match sl with
+      | [] => wb_view w = []
+      | [c] => c <> [] /\ exists rest, wb_view w = c ++ rest
+      | _ => False
+      end.
+Proof. exact wb_chunks_vectored_law. Qed.
+Theorem C14_copy_to_bytes_exact :
+  forall k w, wb_inv w -> k <= len (wb_view w) ->
+    exists w', wb_copy_to_bytes k w = Ok (firstn (N.to_nat k) (wb_view w), w') /\
+               wb_view w' = skipn (N.to_nat k) (wb_view w) /\ wb_inv w'.
+Proof. exact wb_copy_to_bytes_exact. Qed.
+
 (* ---------------- T2: what each constructor puts in the buffer ---------------- *)
 (* no panic, the invariant, and the RFC 9114 bytes: varint type, varint length of the payload as it is at encode
    time, fixed fields; the payload follows from the frame's own Buf *)
@@ -118,6 +137,9 @@ Proof. exact config_settings_good. Qed.
    `conn.inner.shutdown::<T>()` - calling the former twice does put a second SETTINGS on the control stream. *)
 Theorem C14_write_site_census : write_sites = expected_write_sites.
 Proof. exact gen_write_sites. Qed.
+
+Theorem C14_writer_call_graph : writer_calls = expected_writer_calls.
+Proof. exact gen_writer_calls. Qed.
 
 Theorem C14_program_output_valid :
   forall server cfg g prog, g < grease_range -> Forall op_ok prog ->
@@ -236,7 +258,10 @@ Print Assumptions C14_from_stream_type.
 Print Assumptions C14_from_bidi_header.
 Print Assumptions C14_header_fits.
 Print Assumptions C14_config_settings_fit.
+Print Assumptions C14_chunks_vectored_default.
+Print Assumptions C14_copy_to_bytes_exact.
 Print Assumptions C14_write_site_census.
+Print Assumptions C14_writer_call_graph.
 Print Assumptions C14_program_output_valid.
 Print Assumptions C14_scripts_deliver_the_wire.
 Print Assumptions C14_any_program_any_scripts.
